@@ -24,14 +24,14 @@ GCC = shutil.which("gcc")
 
 def make_tree(base):
     root = os.path.join(base, "root")
-    for d in ("root/src/sub", "root/src/inc", "root/src/other", "root/build", "obuild", "root/alt/inc"):
+    for d in ("root/src/sub", "root/src/inc", "root/src/other", "root/build", "obuild", "root/alt/inc", "root/alt/sub"):
         os.makedirs(os.path.join(base, d))
     w = lambda rel, txt: open(os.path.join(base, rel), "w").write(txt)
     w("root/src/sub/f.c", '#include <h.h>\nint f;\n')
     w("root/src/inc/h.h", "int from_inc;\n")
     w("root/src/other/h.h", "int from_other;\n")
     w("root/alt/inc/h.h", "int from_alt;\n")
-    w("root/alt/f.c", '#include <h.h>\nint f;\n')      # a second file that two directories spell "f.c"
+    w("root/alt/sub/f.c", '#include <h.h>\nint f;\n')      # a second file that two directories spell "f.c"
     w("root/src/sub/f.o", "\x7fELF")
     w("root/src/sub/unused.c", "int unused;\n")
     return root
@@ -79,16 +79,19 @@ def good_entries(base, root):
         f = os.path.relpath(os.path.join(root, "src/sub/f.c"), da)
         out.append({"name": dn, "entry": {"file": f, "directory": d, "arguments": ["/usr/bin/gcc", "-c", "-I", "inc", f]},
                     "exp_file": os.path.join(root, "src/sub/f.c"), "exp_inc": [os.path.normpath(idir)], "cwd": da})
-    # the same relative spelling "f.c" from two different directories names two different files
+    # two entries with byte-identical argument lists (as a recursive make writes them) from two different directories:
+    # the same relative spellings "f.c" and "../inc" name two different files and two different include directories
     out.append({"name": "same-rel-file-from-sub", "entry": {"file": "f.c", "directory": os.path.join(root, "src/sub"), "arguments": ["/usr/bin/gcc", "-c", "-I", "../inc", "f.c"]},
                 "exp_file": os.path.join(root, "src/sub/f.c"), "exp_inc": [os.path.join(root, "src/inc")], "cwd": os.path.join(root, "src/sub")})
-    out.append({"name": "same-rel-file-from-alt", "entry": {"file": "f.c", "directory": "alt", "arguments": ["/usr/bin/gcc", "-c", "-I", "inc", "f.c"]},
-                "exp_file": os.path.join(root, "alt/f.c"), "exp_inc": [os.path.join(root, "alt/inc")], "cwd": os.path.join(root, "alt")})
+    out.append({"name": "same-rel-file-from-alt", "entry": {"file": "f.c", "directory": "alt/sub", "arguments": ["/usr/bin/gcc", "-c", "-I", "../inc", "f.c"]},
+                "exp_file": os.path.join(root, "alt/sub/f.c"), "exp_inc": [os.path.join(root, "alt/inc")], "cwd": os.path.join(root, "alt/sub")})
     return out
 
 
 def skipped_entries(root):
     return [
+        # the spelling exists relative to the root, not relative to the entry's directory: a compiler run there finds no such file
+        {"name": "missing-under-directory-present-under-root", "entry": {"file": "src/sub/f.c", "directory": os.path.join(root, "build"), "arguments": ["/usr/bin/gcc", "-c", "src/sub/f.c"]}, "skip": True},
         {"name": "same-rel-file-missing", "entry": {"file": "f.c", "directory": os.path.join(root, "build"), "arguments": ["/usr/bin/gcc", "-c", "f.c"]}, "skip": True},
         {"name": "missing-file", "entry": {"file": "src/sub/missing.c", "arguments": ["/usr/bin/gcc", "-c", "src/sub/missing.c"]}, "skip": True},
         {"name": "object-file", "entry": {"file": "src/sub/f.o", "command": "/usr/bin/gcc src/sub/f.o -o f"}, "skip": True},
@@ -159,8 +162,8 @@ def judge(base, root, entries, with_attr=True):
                     bad.append(("attribution", sorted(want), a))
                     break
             compiled = {os.path.relpath(e["exp_file"], root) for e in good}
-            if any(a.get(f, 0) != (2 if f in compiled else 0) for f in ("src/sub/f.c", "alt/f.c")) or a.get("src/sub/unused.c", 0) != 0:
-                bad.append(("attribution", {"fully used": sorted(compiled), "not used": ["src/sub/unused.c"] + sorted({"src/sub/f.c", "alt/f.c"} - compiled)}, a))
+            if any(a.get(f, 0) != (2 if f in compiled else 0) for f in ("src/sub/f.c", "alt/sub/f.c")) or a.get("src/sub/unused.c", 0) != 0:
+                bad.append(("attribution", {"fully used": sorted(compiled), "not used": ["src/sub/unused.c"] + sorted({"src/sub/f.c", "alt/sub/f.c"} - compiled)}, a))
     return bad
 
 
@@ -245,7 +248,7 @@ def run(tier):
     tmp = env.fresh_dir("c13probe")
     ngood = len(good_entries(tmp, make_tree(tmp)))
     jobs = [(list(range(i, min(ngood, i + 12))), "single") for i in range(0, ngood, 12)]
-    npool = len(REPRESENTATIVE) + 6
+    npool = len(REPRESENTATIVE) + 7
     maxlen = 2 if tier == "quick" else 3
     seqs = [s for k in range(1, maxlen + 1) for s in itertools.product(range(npool), repeat=k)]
     if tier == "quick":   # seed-selected extension: all triples that start with a seed-chosen pool element
@@ -260,7 +263,7 @@ def run(tier):
     rep.coverage.update({
         "evaluations": sum(r[0] for r in res), "distinct_nontrivial": ngood + len(seqs),
         "rule": "all %d single entries (7 directory spellings x 4 file spellings x 6 -I spellings), and all sequences of <=%d entries over %d representative "
-                "entries + 6 skipped kinds; distinct = distinct databases" % (ngood, maxlen, len(REPRESENTATIVE)),
+                "entries + 7 skipped kinds; distinct = distinct databases" % (ngood, maxlen, len(REPRESENTATIVE)),
         "failing_cases": sum(r[1] for r in res), "single_entries": ngood, "sequences": len(seqs),
         "oracle_gcc": {"available": bool(GCC), "distinct_commands_confirmed": gchk, "disagreements": gdis[:5]},
         "samples": [{"entries": list(REPRESENTATIVE[:2]) + ["missing-file"]}],
